@@ -28,6 +28,7 @@ func init() {
 			{ID: "C09-R10", Doc: "polarity of the table's tests and the rows they address (conditions evaluated, indices as linear forms)", Run: c09r10},
 			{ID: "C17-R7", Doc: "no compound nil/end-of-stream test is constant (shared)", Run: c17r7},
 			{ID: "C10-R4", Doc: "the reducing merge used to read a spilled combiner back repairs its heap after every cursor move (shared)", Run: c10r4},
+			{ID: "C10-R8", Doc: "a merge heap is heapified after it has been filled (shared)", Run: c10r8},
 			{ID: "C10-R6", Doc: "reducing merge: combined value stored before refill (shared)", Run: c10r6},
 		},
 	})
